@@ -15,6 +15,7 @@ from sa.interp import Interp, Scenario, Sym, Const, Bytes, render
 from sa.loader import AnalysisError, dotted
 from sa.cfg import CFG, calls_in
 from sa import verdict
+from sa import families
 
 
 def run(rep, prog, tier):
@@ -85,9 +86,7 @@ def check_verify_wiring(rep, prog):
                 rep.check(len(args) == 3 and args[1] == exp[1], 'C01.2', 'PGPKey.verify', 'signature argument %s' % (args[1:2],),
                           'the signature integers verified must be those of the signature being examined', where=w,
                           expected=exp[1], found=args[1] if len(args) > 1 else None)
-                rep.check(len(args) == 3 and args[2] == exp[2], 'C01.2', 'PGPKey.verify', 'hash argument %s' % (args[2:3],),
-                          'the hash object must be built from the hash algorithm of the signature being examined', where=w,
-                          expected=exp[2], found=args[2] if len(args) > 2 else None)
+                families.check_hash_object(rep, prog, 'C01.2', 'PGPKey.verify', args[2] if len(args) > 2 else None, S, w)
         # verdict polarity
         crypto_records = [r for r in records if len(r[1]) >= 4 and ('WrongSig' in r[1][3] or r[1][3] == 'SecurityIssues.OK')
                           or (len(r[1]) < 4 and 'issues' not in r[2])]
